@@ -103,10 +103,28 @@ def revolute_case(j, e, alen, rng, sigma=1.0):
             if Td is not None:
                 check(j, float(np.max(np.abs(Td - T))) <= FIX * sc, "Twist3.exp(theta,deg)", feat, "deg-differs-from-rad",
                       dict(detail, theta2=t2), ("deg=rad", feat))
+        # the two-argument forms of the base exponential on the vector and on the se(3) matrix of the unit twist
+        for site, fn in (("base.trexp(S,theta)", lambda: b.trexp(S.S, t2)), ("base.trexp(se3,theta)", lambda: b.trexp(S.se3(), t2)),
+                         ("base.trexp(S,int(theta))", (lambda: b.trexp(S.S, int(t2))) if float(t2).is_integer() else None)):
+            if fn is None:
+                continue
+            Tb = guard(j, site, feat, detail, (site, feat), fn)
+            if Tb is not None:
+                check(j, float(np.max(np.abs(np.asarray(Tb, dtype=float) - T))) <= FIX * sc, site, feat, "differs-from-Twist3.exp",
+                      dict(detail, theta2=t2), (site, feat))
         # and it rotates by t2 about u: R u = u, trace = 1 + 2 cos
         R = T[:3, :3]
         ok = float(np.max(np.abs(R @ u - u))) <= TOL and abs(float(np.trace(R)) - (1 + 2 * math.cos(t2))) <= TOL
         check(j, ok, "Twist3.exp(theta)", feat, "wrong-rotation-angle-or-axis", dict(detail, theta2=t2), ("rotation", feat))
+    # the rotational part alone: exp of the unit so(3) element with theta (0 included) is the rotation by theta about u
+    for t2 in (0, 0.0, 1e-9, 0.7, -2.3, math.pi):
+        for site, fn in (("base.trexp(w,theta)", lambda: b.trexp(np.asarray(S.w, dtype=float), t2)),
+                         ("base.trexp(skew(w),theta)", lambda: b.trexp(b.skew(np.asarray(S.w, dtype=float)), t2))):
+            Rb = guard(j, site, feat, detail, (site, feat), fn)
+            if Rb is not None:
+                Rb = np.asarray(Rb, dtype=float)
+                ok = Rb.shape == (3, 3) and float(np.max(np.abs(Rb - S.exp(t2).A[:3, :3]))) <= TOL
+                check(j, ok, site, feat, "differs-from-the-rotation-of-Twist3.exp", dict(detail, theta2=t2), (site, feat))
     # quarter-turn multiples against exact integer powers
     if quarter(q):
         for kq in range(-4, 5):
@@ -187,6 +205,17 @@ def multi_valued_lines(j):
                 ok = ok and float(np.linalg.norm(np.cross(w, u))) / nw <= 1e-9 and \
                     float(np.linalg.norm(np.cross(w, p) - vv)) / (nw * sc) <= 1e-9
         check(j, ok, "Twist3[N].line", "n=3", "line-i-is-not-the-axis-of-twist-i", detail, cid)
+        # the inverse of a Twist3 holding several unit twists: value i is the negation of twist i, and its exponential
+        # undoes the exponential of twist i
+        cid = ("Twist3[N].inv",)
+        I = guard(j, "Twist3[N].inv", "n=3", detail, cid, lambda: Twist3([t[0] for t in trio]).inv())
+        if I is not None:
+            ok = len(I) == 3
+            if ok:
+                for i, (S_, u, p, sc) in enumerate(trio):
+                    ok = ok and float(np.max(np.abs(np.asarray(I[i].S, dtype=float) + S_))) <= 1e-12 * sc and \
+                        float(np.max(np.abs(I[i].exp(0.9).A @ Twist3(S_).exp(0.9).A - np.eye(4)))) <= TOL * sc
+            check(j, ok, "Twist3[N].inv", "n=3", "value-i-is-not-the-negation-of-twist-i", detail, cid)
 
 
 def prismatic_case(j, d, alen):
@@ -210,12 +239,18 @@ def prismatic_case(j, d, alen):
                float(np.max(np.abs(np.asarray(S.w, dtype=float)))) == 0 and abs(float(np.linalg.norm(S.v)) - 1) <= 1e-9)
     if ok is not None:
         check(j, ok, "Twist3.isprismatic", feat, "prismatic-not-reported-or-not-unit", detail, cid)
+    # theta() is the ROTATION magnitude: none for a prismatic twist, its inverse and its multiples
+    for site, fn in (("Twist3.theta", lambda: S.theta()), ("Twist3.inv().theta", lambda: S.inv().theta()), ("Twist3(S*k).theta", lambda: (S * 2.5).theta())):
+        v = guard(j, site, feat, detail, (site, "prismatic"), fn)
+        if v is not None:
+            check(j, abs(float(v)) <= 1e-12, site, feat, "rotation-magnitude-of-a-prismatic-twist-not-zero", dict(detail, got=float(v)), (site, "prismatic"))
     ok = guard(j, "Twist3.*", feat, detail, ("prismatic-scale",), lambda: float(np.max(np.abs((S * 1.7).exp().A - S.exp(1.7).A))) <= TOL)
     if ok is not None:
         check(j, ok, "Twist3.*", feat, "scalar-multiple-inconsistent-with-exp", detail, ("prismatic-scale",))
 
 
 def planar_case(j, e, rng, sigma=1.0):
+    import spatialmath.base as b
     from spatialmath import Twist2
     c = e["c"]
     g, p = c["g"], np.array(c["p"][:2], dtype=float) * sigma
@@ -240,6 +275,14 @@ def planar_case(j, e, rng, sigma=1.0):
         T = guard(j, "Twist2.exp(theta)", feat, detail, ("point-fixed",), lambda: S.exp(t2).A)
         if T is not None:
             check(j, float(np.max(np.abs(T[:2, :2] @ p + T[:2, 2] - p))) <= FIX * sc, "Twist2.exp(theta)", feat, "centre-moved", dict(detail, theta2=t2), ("point-fixed",))
+            for site, fn in (("base.trexp2(S,theta)", lambda: b.trexp2(S.S, t2)), ("base.trexp2(se2,theta)", lambda: b.trexp2(S.se2(), t2)),
+                             ("base.trexp2(S,int(theta))", (lambda: b.trexp2(S.S, int(t2))) if float(t2).is_integer() else None)):
+                if fn is None:
+                    continue
+                Tb = guard(j, site, feat, detail, (site,), fn)
+                if Tb is not None:
+                    check(j, float(np.max(np.abs(np.asarray(Tb, dtype=float) - T))) <= FIX * sc, site, feat, "differs-from-Twist2.exp",
+                          dict(detail, theta2=t2), (site,))
             ok = abs(T[0, 0] - math.cos(t2)) <= TOL and abs(T[1, 0] - math.sin(t2)) <= TOL
             check(j, ok, "Twist2.exp(theta)", feat, "wrong-rotation-angle", dict(detail, theta2=t2), ("rotation2",))
             if abs(t2) <= math.pi:
